@@ -25,6 +25,9 @@ SIM = os.environ.get("VERIF_SELFTEST_SIM") or os.path.join(VERIF, "sim")
 # overrides the binary and the output directories, and nothing under /verif or /repo
 # is touched. Registered checks never set these.
 BIN = os.environ.get("VERIF_SELFTEST_BIN") or os.path.join(VERIF, "target", "release", "cactus-sim")
+# second build configuration: as a release user builds the crate (no debug assertions,
+# no overflow checks); every other worker chunk runs on it
+BIN2 = BIN.replace("/release/", "/relnd/")
 _OUT = os.environ.get("VERIF_SELFTEST_OUT")
 EVID = os.path.join(_OUT, "evidence") if _OUT else os.path.join(VERIF, "evidence")
 REPLAYS = os.path.join(_OUT, "replays") if _OUT else os.path.join(VERIF, "replays")
@@ -79,11 +82,12 @@ def build():
     if os.environ.get("VERIF_SELFTEST_BIN"):
         return
     env = dict(os.environ, CARGO_NET_OFFLINE="true")
-    r = subprocess.run(["cargo", "build", "--release", "--offline"], cwd=SIM, env=env, stdout=subprocess.PIPE, stderr=subprocess.STDOUT, text=True)
-    if r.returncode != 0:
-        eprint(r.stdout[-6000:])
-        eprint("HARNESS-ERROR build failed")
-        sys.exit(2)
+    for args in (["--release"], ["--profile", "relnd"]):
+        r = subprocess.run(["cargo", "build"] + args + ["--offline"], cwd=SIM, env=env, stdout=subprocess.PIPE, stderr=subprocess.STDOUT, text=True)
+        if r.returncode != 0:
+            eprint(r.stdout[-6000:])
+            eprint("HARNESS-ERROR build failed")
+            sys.exit(2)
 
 
 def load_findings():
@@ -102,7 +106,8 @@ def run_worker(args):
     os.makedirs(SCRATCH, exist_ok=True)
     outp = os.path.join(SCRATCH, f"w-{profile}-{os.getpid()}-{idx}.out")
     dist = os.path.join(SCRATCH, f"w-{profile}-{os.getpid()}-{idx}.dist")
-    cmd = [BIN, "batch", "--profile", profile, "--seed", str(seed), "--from", str(lo), "--to", str(hi), "--distinct-out", dist]
+    exe = BIN2 if (idx % 2 == 1 and os.path.exists(BIN2) and not digests) else BIN
+    cmd = [exe, "batch", "--profile", profile, "--seed", str(seed), "--from", str(lo), "--to", str(hi), "--distinct-out", dist]
     if thorough:
         cmd.append("--thorough")
     if digests:
@@ -167,8 +172,8 @@ def run_batches(profile, seed, total, thorough, jobs, digests=False, wall_cap=No
     return viol, stats, samples, len(distinct), len(orders), dig
 
 
-def replay_once(profile, ops, faults, layouts, noise=False, timeout=60, ops_a=None, tail=None, log_trace=False):
-    cmd = [BIN, "replay", "--profile", profile, "--layouts", ",".join(str(x) for x in layouts), "--faults", faults, "--ops", ";".join(ops)]
+def replay_once(profile, ops, faults, layouts, noise=False, timeout=60, ops_a=None, tail=None, log_trace=False, build="checked"):
+    cmd = [BIN2 if (build == "relnd" and os.path.exists(BIN2)) else BIN, "replay", "--profile", profile, "--layouts", ",".join(str(x) for x in layouts), "--faults", faults, "--ops", ";".join(ops)]
     if noise:
         cmd.append("--layout-noise")
     if log_trace:
@@ -211,11 +216,12 @@ def minimise(prop, v, budget_s=120):
         return None  # a pair of routes to one ledger: deleting calls would change the ledger
 
     lt = bool(v.get("log_trace", 0))
+    bd = v.get("build", "checked")
 
     def fails(o, f, l):
         if time.time() - t0 > budget_s:
             return False
-        return same_failure(replay_once(profile, o, f, l, noise, log_trace=lt), prop, kind, cause)
+        return same_failure(replay_once(profile, o, f, l, noise, log_trace=lt, build=bd), prop, kind, cause)
 
     if not fails(ops, faults, layouts):
         return None
@@ -296,7 +302,7 @@ def minimise(prop, v, budget_s=120):
             ops = cand
         else:
             i += 1
-    final = replay_once(profile, ops, faults, layouts, noise, log_trace=lt)
+    final = replay_once(profile, ops, faults, layouts, noise, log_trace=lt, build=bd)
     if not same_failure(final, prop, kind, cause):
         return None
     return {"ops": ops, "faults": faults, "layouts": layouts, "noise": noise, "final": final}
@@ -314,7 +320,7 @@ def write_replay(prop, v, mini):
         "property": prop, "profile": v["profile"], "engine": "sim", "kind": v["kind"], "cause": v["cause"],
         "seed": v["seed"], "run": v["run"], "exec": v.get("exec", 0), "layouts": layouts, "layout_noise": noise,
         "calls": ops, "faults": faults, "minimised": bool(mini), "original_calls": len(parse_ops(v["ops"])),
-        "calls_a": parse_ops(v["ops_a"]) if v.get("ops_a") else None, "tail": v.get("tail"), "log_trace": bool(v.get("log_trace", 0)),
+        "calls_a": parse_ops(v["ops_a"]) if v.get("ops_a") else None, "tail": v.get("tail"), "log_trace": bool(v.get("log_trace", 0)), "build": v.get("build", "checked"),
         "expect": {"kind": final.get("kind"), "cause": final.get("cause"), "msg": final.get("msg"), "props": final.get("props")},
     }
     with open(path, "w") as f:
@@ -329,7 +335,7 @@ def do_replay_file(path, quiet=False):
     if eng != "sim":
         import engines
         return engines.replay(rec, path, quiet)
-    j = replay_once(rec["profile"], rec["calls"], rec.get("faults", ""), rec["layouts"], rec.get("layout_noise", False), ops_a=rec.get("calls_a"), tail=rec.get("tail"), log_trace=rec.get("log_trace", False))
+    j = replay_once(rec["profile"], rec["calls"], rec.get("faults", ""), rec["layouts"], rec.get("layout_noise", False), ops_a=rec.get("calls_a"), tail=rec.get("tail"), log_trace=rec.get("log_trace", False), build=rec.get("build", "checked"))
     prop = rec["property"]
     if j.get("type") == "violation" and prop in j.get("props", []):
         if not quiet:
@@ -497,7 +503,7 @@ def check_sim(prop, tier, seed, jobs):
         "known_findings_hit": hit,
         "regression_replays_executed": regress_n,
         "other_property_violations": other_kinds,
-        "components": {"real": ["cactusref (all modules, built from /repo working tree with --cfg cactusref_verif)", "hashbrown", "rustc-hash"] + (["std::rc (reference implementation)"] if prop == "C07" else []),
+        "components": {"real": ["cactusref (all modules, built from /repo working tree with --cfg cactusref_verif; two build configurations: debug assertions + overflow checks on, and both off; worker chunks alternate)", "hashbrown", "rustc-hash"] + (["std::rc (reference implementation)"] if prop == "C07" else []),
                        "stub": ["payload value type (instrumented Node)", "global allocator (layout-scheduling arena)", "log backend (counting sink; Trace level in 1 run of 8, Off otherwise)"]},
         "exhaustive": False,
     }
